@@ -264,6 +264,12 @@ func receiveUnaryResponse[T any](conn StreamingClientConn) (*Response[T], error)
 	if err := conn.Receive(new(T)); err == nil {
 		return nil, NewError(CodeUnknown, errors.New("unary stream has multiple messages"))
 	} else if err != nil && !errors.Is(err, io.EOF) {
+		if connectErr, ok := asError(err); ok {
+			// The stream has already classified its failure (the peer's error
+			// status, or the end of the call's context): don't re-code it as
+			// unknown.
+			return nil, connectErr
+		}
 		return nil, NewError(CodeUnknown, err)
 	}
 	return &Response[T]{
